@@ -90,7 +90,13 @@ func (cq *commitQueue) acquireItem() bool {
 			return true
 		}
 		if atomic.LoadUint32(&cq.closed) == 1 {
-			if atomic.LoadInt64(&cq.queueLen) == 0 && atomic.LoadInt64(&cq.inflight) == 0 {
+			// Order matters: a writer raises inflight before it checks closed and
+			// lowers it only after its request is counted in queueLen. Reading
+			// inflight first means every writer that can still enqueue has finished,
+			// so the queueLen read after it cannot miss a request (reading them the
+			// other way round let the worker exit with a request still queued, whose
+			// caller then waited forever).
+			if atomic.LoadInt64(&cq.inflight) == 0 && atomic.LoadInt64(&cq.queueLen) == 0 {
 				return false
 			}
 			time.Sleep(100 * time.Microsecond)
